@@ -733,6 +733,17 @@ func main() {
 	}
 	e.faultCases(25 * scale)
 	e.asyncCases(c, r, 12*scale)
+	// appended last so that the random stream of everything above is unchanged
+	e.pqFaultCases(10 * scale)
+	sizes := []int{1025, 1500, 3000, 5000}
+	e.bigCSVCases(sizes)
+	e.bigPQCases([]int{1025, 3000})
+	if c.Thorough() {
+		for i := 0; i < 3; i++ {
+			e.bigCSVCases([]int{1025 + e.r.Intn(200), 2000 + e.r.Intn(3000), 8000})
+		}
+		e.bigPQCases([]int{1500, 5000})
+	}
 	c.Extra["harness_seconds"] = int(time.Since(t0).Seconds())
 	c.Finish("non-trivial = multi-cell column / any time-column conversion / any end-to-end import (CSV: option or quoting or inference edge; Parquet: every column kind)")
 }
